@@ -1793,14 +1793,17 @@ pub fn lookup(seed: u64, focus: Focus, rep: &mut Report) {
                                     let heard = if seed { *started } else { named.iter().filter(|(l, t, y)| l.map_or(true, |l| l == k) && y == x && *t >= *started).map(|(_, t, _)| *t).min().unwrap_or(*started) };
                                     let from = heard.saturating_sub(request_timeout * (retries as u32 + 1) + Duration::from_millis(50));
                                     let mine: Vec<_> = v.iter().filter(|(t, _, _)| *t >= from).collect();
-                                    !mine.is_empty() && mine.iter().all(|(_, o, _)| matches!(o, Some(j) if *j != k))
+                                    // (no packet at all in that window: the lookup made no request
+                                    // to the candidate either - a request of its own, or the random
+                                    // packet of the handshake it waited behind, would be there)
+                                    mine.iter().all(|(_, o, _)| matches!(o, Some(j) if *j != k))
                                 }
                                 None => false,
                             })
                             .map(|(_, _, x)| format!("{}=node{}", hx(&x[..4]), s.w.node_by_id(x).unwrap())).collect();
                         rep.count("sys_overlapping_lookups_judged_per_lookup");
                         if !others_only.is_empty() {
-                            s.flag(rep, Focus::C10, "C10:candidate-left-to-another-lookup", format!("a lookup running next to others returned {} nodes without being cut off, yet {} candidates named in answers to its own requests only ever got requests of other lookups ({:?})", result.len(), others_only.len(), &others_only[..others_only.len().min(4)]), json!({"overlapping": k + 1, "target": hx(target)}));
+                            s.flag(rep, Focus::C10, "C10:candidate-left-to-another-lookup", format!("a lookup running next to others returned {} nodes without being cut off, yet {} candidates named in answers to its own requests got no request of this lookup: since it can first have heard of them, every packet sent to them belongs to another lookup, or there is none ({:?})", result.len(), others_only.len(), &others_only[..others_only.len().min(4)]), json!({"overlapping": k + 1, "target": hx(target)}));
                         }
                     }
                 }
